@@ -430,7 +430,7 @@ def read_meme(filename, n_motifs=None):
 				pwm[i] = list(map(float, line.strip("\r\n").split()))
 				i += 1
 
-			else:
+			if width is not None and i == width:
 				motifs[motif] = torch.from_numpy(pwm.T)
 				motif, width, i = None, None, 0
 
